@@ -24,6 +24,12 @@ echo "== demo WITH change"; run_demo | tail -3
 git checkout -q -- .
 rm -rf $wt/.tmp
 mkdir -p /verif/seeded/$p-$k && cp $src/patch.diff $src/demo_test.go $src/meta.json /verif/seeded/$p-$k/
-echo "== govc check on /repo with the change applied"
-cd /repo && git apply $src/patch.diff && (cd /verif && GOVC_WORKERS=6 ./bin/govc check --prop $p 2>&1 | grep "^VIOL\|^ERROR\|^FAILED\|^$p" | cut -c1-250); git -C /repo apply -R $src/patch.diff
-git -C /repo status --short | grep -v Static
+echo "== govc check on a scratch worktree of /repo HEAD with the change applied (final results: tools/check_seeds.sh on /repo itself)"
+sc=/tmp/seedcheck/$p; sv=/tmp/seedvf/$p
+rm -rf $sv; mkdir -p $sv /tmp/seedcheck
+[ -d $sc ] || git -C /repo worktree add --detach $sc HEAD >/dev/null 2>&1
+git -C $sc checkout -q --detach $(git -C /repo rev-parse HEAD) && git -C $sc checkout -q -- .
+cp -r /verif/specs /verif/baseline /verif/known_findings.txt /verif/rac $sv/
+(cd $sc && git apply $src/patch.diff) || { echo "PATCH DOES NOT APPLY ON HEAD"; exit 1; }
+(cd $sv && GOVC_REPO=$sc GOVC_VERIF=$sv GOVC_WORKERS=6 /verif/bin/govc check --prop $p 2>&1 | grep "^VIOL\|^ERROR\|^FAILED\|^$p" | cut -c1-250)
+git -C /repo worktree remove --force $sc; rm -rf $sv
